@@ -138,6 +138,10 @@ def run(plan):
     dev = RefDevice(version=version, device_id=cfg["device_id"], token=token, key=key, nonce_seed=b"cli")
     for k, v in cfg["state"].items():
         dev.state[k] = v
+    if cfg.get("remote_during_toggle"):
+        # while the CLI toggles the display, the remote control changes other settings: the state the CLI goes on
+        # with is the one reported after the toggle
+        dev.on_toggle_change = dict(cfg["remote_during_toggle"])
     if "caps_pages" in cfg:
         dev.caps_pages = [([(cid, bytes.fromhex(v)) for cid, v in recs], add) for recs, add in cfg["caps_pages"]]
     if cfg.get("chatty") and version == 3:
@@ -205,6 +209,10 @@ def run(plan):
                         if e[1] != before["display_on"]:
                             want_toggle = 1
                             exp["display_on"] = e[1]
+                            named = {x[1] for x in effects if x[0] == "state"}
+                            for k2, v2 in (cfg.get("remote_during_toggle") or {}).items():
+                                if k2 not in named:
+                                    exp[k2] = v2
                 if getattr(dev, "toggles", 0) != want_toggle:
                     res.fail("display toggle sent although the value equals the reported one" if want_toggle == 0
                              else "display toggle not sent although the value differs",
@@ -265,6 +273,9 @@ def space(tier):
             seen.add(canon)
             settings.append(txt)
             effects.append([eff[0]] + [x.hex() if isinstance(x, bytes) else x for x in eff[1:]])
+        if any(e[0] == "display" for e in effects) and rng.random() < 0.3:
+            st = cfg["state"]
+            cfg["remote_during_toggle"] = {k: (not st[k]) for k in rng.sample(["freeze", "eco", "sleep", "purifier", "power"], rng.randint(1, 2))}
         if cfg["capabilities"] and any(e[0] != "state" for e in effects):
             cfg["capabilities"] = False      # keep property ids independent of a capability profile
         elif cfg["capabilities"] or (all(e[0] == "state" for e in effects) and rng.random() < 0.2):
